@@ -536,3 +536,118 @@ def bisect_rule(ctx: Ctx, rule: str = "BISECT") -> int:
         f"the message is inserted at `{lo}`", "the message is not inserted into the list at the found position",
         f"{[short(c) for c in ins]}", ins[0] if ins else fn)
     return n
+
+
+def times_of_type_rule(ctx: Ctx, rule: str = "TIMES") -> int:
+    """get_message_times_of_type (the signature look-ups of bar splitting and the loader's default signature read it): every
+    message whose kind is among the requested kinds contributes exactly one (its time, the message) entry, in list order;
+    the Sequence wrapper keeps time and order and only wraps the message."""
+    p = ctx.p
+    q = "AbsoluteSequence.get_message_times_of_type"
+    fi = p.func(q)
+    ctx.analysed(fi)
+    n = 0
+    loop = next((s for s in fi.node.body if isinstance(s, ast.For) and attr_chain(s.iter) == ["self", "_messages"] and isinstance(s.target, ast.Name)), None)
+    ret = next((r for r in walk_local(fi.node) if isinstance(r, ast.Return) and isinstance(r.value, ast.Name)), None)
+    if loop is None or ret is None:
+        ctx.undetermined(rule, f"{q}: collection loop", "no loop over self._messages filling a returned list: idiom not judged")
+        return 0
+    m, res, kinds = loop.target.id, ret.value.id, fi.params[1]
+    apps = [c for c in ast.walk(loop) if isinstance(c, ast.Call) and call_method(c)[1] == "append" and src(call_method(c)[0]) == res]
+    n += 1
+    ok = len(apps) == 1 and isinstance(apps[0].args[0], ast.Tuple) and len(apps[0].args[0].elts) == 2 and src(apps[0].args[0].elts[0]) == f"{m}.time" \
+        and src(apps[0].args[0].elts[1]) == m
+    ctx.check(ok, rule, f"{q}: an entry is (the message's time, the message)", function=q, construct="entries of get_message_times_of_type are not (time, message)",
+              message=f"{[short(c) for c in apps]}", file=fi.file, node=apps[0] if apps else loop)
+    if apps:
+        from ..astutil import path_conditions
+        pcs = path_conditions(apps[0], loop)
+        okc = len(pcs) == 1 and pcs[0][1] and isinstance(pcs[0][0], ast.Compare) and isinstance(pcs[0][0].ops[0], ast.In) \
+            and src(pcs[0][0].left) == f"{m}.message_type" and src(pcs[0][0].comparators[0]) == kinds
+        n += 1
+        ctx.check(okc, rule, f"{q}: a message is listed iff its kind is among the requested kinds", function=q,
+                  construct="get_message_times_of_type selects messages by a test other than `kind in requested kinds`",
+                  message=f"{[(short(t), h) for t, h in pcs]}", file=fi.file, node=apps[0])
+    n += 1
+    ctx.check(not any(isinstance(x, (ast.Break, ast.Continue, ast.Return)) for x in ast.walk(loop)), rule, f"{q}: every message is visited", function=q,
+              construct="get_message_times_of_type leaves its loop early", message="", file=fi.file, node=loop)
+    w = p.func("Sequence.get_message_times_of_type")
+    ctx.analysed(w)
+    wl = next((s for s in w.node.body if isinstance(s, ast.For) and isinstance(s.target, ast.Tuple) and len(s.target.elts) == 2), None)
+    okw = False
+    if wl is not None:
+        tvar, mvar = src(wl.target.elts[0]), src(wl.target.elts[1])
+        wapps = [c for c in ast.walk(wl) if isinstance(c, ast.Call) and call_method(c)[1] == "append"]
+        okw = len(wapps) == 1 and isinstance(wapps[0].args[0], ast.Tuple) and src(wapps[0].args[0].elts[0]) == tvar \
+            and any(isinstance(x, ast.Name) and x.id == mvar for x in ast.walk(wapps[0].args[0].elts[1])) \
+            and not any(isinstance(x, (ast.If, ast.Break, ast.Continue)) for x in ast.walk(wl))
+    n += 1
+    ctx.check(okw, rule, "Sequence.get_message_times_of_type keeps every entry's time and the order", function=w.qualname,
+              construct="Sequence-level get_message_times_of_type drops, reorders or re-times entries", message="", file=w.file, node=wl or w.node)
+    return n
+
+
+def concat_rule(ctx: Ctx, rule: str = "CONCAT") -> int:
+    """Bars are re-joined by Bar.to_sequence -> Sequence.concatenate -> RelativeSequence.concatenate: at each level every
+    element is taken, once, in order, unfiltered, into a fresh result."""
+    p = ctx.p
+    n = 0
+
+    def whole_in_order(comp_or_iter, source: str, elt_ok) -> bool:
+        e = comp_or_iter
+        if isinstance(e, ast.ListComp):
+            g = e.generators[0]
+            return len(e.generators) == 1 and not g.ifs and src(g.iter) == source and elt_ok(e.elt, src(g.target))
+        return False
+    # RelativeSequence.concatenate
+    q = "RelativeSequence.concatenate"
+    fi = p.func(q)
+    ctx.analysed(fi)
+    prm = fi.params[1]
+    loop = next((s for s in fi.node.body if isinstance(s, ast.For) and src(s.iter) == prm and isinstance(s.target, ast.Name)), None)
+    ok = False
+    if loop is not None and not any(isinstance(x, (ast.If, ast.Break, ast.Continue)) for x in ast.walk(loop)):
+        ext = [c for c in ast.walk(loop) if isinstance(c, ast.Call) and call_method(c)[1] == "extend" and attr_chain(call_method(c)[0]) == ["self", "_messages"]]
+        if len(ext) == 1:
+            a = ext[0].args[0]
+            sv = loop.target.id
+            ok = src(a) == f"{sv}._messages" or whole_in_order(a, f"{sv}._messages", lambda el, tv: src(el) in (tv, f"{tv}.copy()")) \
+                or (isinstance(a, ast.Call) and src(a.func) == "list" and src(a.args[0]) == f"{sv}._messages")
+    n += 1
+    ctx.check(ok, rule, f"{q}: appends every message of every given sequence, in order", function=q,
+              construct="concatenation of relative sequences drops, filters or reorders messages", message="", file=fi.file, node=loop or fi.node)
+    # Sequence.concatenate
+    q = "Sequence.concatenate"
+    fi = p.func(q)
+    ctx.analysed(fi)
+    prm = fi.params[1]
+    call = next((c for c in walk_local(fi.node) if isinstance(c, ast.Call) and call_method(c)[1] == "concatenate" and attr_chain(call_method(c)[0]) == ["self", "rel"]), None)
+    ok = call is not None and call.args and whole_in_order(call.args[0], prm, lambda el, tv: src(el) == f"{tv}.rel")
+    n += 1
+    ctx.check(bool(ok), rule, f"{q}: hands the relative view of every given sequence, in order", function=q,
+              construct="Sequence.concatenate does not pass all given sequences' relative views in order", message=short(call) if call else "", file=fi.file, node=call or fi.node)
+    # Bar.to_sequence
+    q = "Bar.to_sequence"
+    fi = p.func(q)
+    ctx.analysed(fi)
+    prm = fi.params[0]
+    ret = next((r for r in walk_local(fi.node) if isinstance(r, ast.Return) and isinstance(r.value, ast.Name)), None)
+    ok = False
+    if ret is not None:
+        res = ret.value.id
+        fresh = [s for s in fi.node.body if isinstance(s, ast.Assign) and src(s.targets[0]) == res and isinstance(s.value, ast.Call) and src(s.value.func) == "Sequence"
+                 and not s.value.args and not s.value.keywords]
+        cc = [c for c in walk_local(fi.node) if isinstance(c, ast.Call) and call_method(c)[1] == "concatenate" and src(call_method(c)[0]) == res]
+        if fresh and len(cc) == 1 and cc[0].args:
+            a = cc[0].args[0]
+            if isinstance(a, ast.ListComp):
+                ok = whole_in_order(a, prm, lambda el, tv: src(el) == f"{tv}.sequence")
+            elif isinstance(a, ast.Name):
+                lp = next((s for s in fi.node.body if isinstance(s, ast.For) and src(s.iter) == prm and isinstance(s.target, ast.Name)), None)
+                if lp is not None and not any(isinstance(x, (ast.If, ast.Break, ast.Continue)) for x in ast.walk(lp)):
+                    ap = [c for c in ast.walk(lp) if isinstance(c, ast.Call) and call_method(c)[1] == "append" and src(call_method(c)[0]) == a.id]
+                    ok = len(ap) == 1 and src(ap[0].args[0]) == f"{lp.target.id}.sequence" and lp.lineno < cc[0].lineno
+    n += 1
+    ctx.check(ok, rule, f"{q}: concatenates the sequence of every bar, in order, into a fresh sequence", function=q,
+              construct="Bar.to_sequence drops, filters or reorders bars", message="", file=fi.file, node=fi.node)
+    return n
